@@ -22,8 +22,9 @@ MULTILEVEL = {"QRRT", "QRRTStar", "QMP", "QMPStar"}
 
 
 def switches_without_clear(opnames):
-    """a new problem definition installed after some solve() with no clear()/clearQuery() in between"""
-    solved = False
+    """a new problem definition installed after setup() / solve() with no clear()/clearQuery() in between
+    (the driver sets the first problem definition and calls setup() before the first op)"""
+    solved = True
     for o in opnames:
         if o[0] in "ST": solved = True
         elif o in ("C", "Q"): solved = False
@@ -139,10 +140,11 @@ def main():
     A = set(l.strip() for l in open(os.path.join(vf.VERIF, "checks", "c01_classA.txt")) if l.strip() and not l.startswith("#"))
     feed = []; fed = []
     stats = collections.Counter(); further_max = collections.Counter(); failures = collections.Counter(); skipped = {}
+    failing = []
     def pred(j, msg, slug=None):
         nonlocal npred, first_pred
         if slug and c.known_finding(slug, msg + " ('%s')" % j): stats["known:" + slug] += 1; return
-        npred += 1; failures[j.split()[1] + ": " + msg[:60]] += 1
+        npred += 1; failures[j.split()[1] + ": " + msg[:60]] += 1; failing.append((j, msg[:200]))
         if first_pred is None or len(j) < len(first_pred[0]): first_pred = (j, msg)
     for j, rc, out, err in results:
         pl = j.split()[1]
@@ -165,7 +167,7 @@ def main():
             slug = hist_slug or ("C03-informedtrees-plannerdata-pins-states" if (pl in ("BITstar", "ABITstar", "AITstar") and "D" in opnames) else None) or (KNOWN_ML_LEAK if (pl in ("QRRT", "QRRTStar") and live and 0 < live[0] <= nsolve) else None)
             pred(j, "state allocation counter is %s after the planner and problem definitions were destroyed (leak)" % (live[0] if live else "?"), slug)
         if live and live[2]: pred(j, "more states freed than allocated at some point (double free)")
-        prev = None; oldq = set(); fresh = True; switched_without_clear = False
+        prev = None; oldq = set(); fresh = False; switched_without_clear = False   # fresh: clear()/clearQuery() was the last lifecycle op
         for k, op in enumerate(ops):
             o = op["op"]
             if o in ("C", "Q"): fresh = True; switched_without_clear = False; prev = None if o == "C" else prev
@@ -181,7 +183,7 @@ def main():
                 if st["further"] > MAX_FURTHER: pred(j, "solve() evaluated the termination condition %d more times after it first reported true (op %d '%s')" % (st["further"], k, o))
             if st["secs"] > MAX_SECS: pred(j, "solve() took %.1f s although the condition fired (op %d '%s')" % (st["secs"], k, o))
             sol = st["code"] in (5, 6)
-            if sol and (not st["has"] or not op["P"]): pred(j, "status %d reported but the problem definition holds no (or an empty) solution path (op %d '%s')" % (st["code"], k, o))
+            if sol and (not st["has"] or not op["P"]): pred(j, "status %d reported but the problem definition holds no (or an empty) solution path (op %d '%s')" % (st["code"], k, o), KNOWN_NEWPDEF if switched_without_clear else None)
             if not sol and st["after"] != st["before"]: pred(j, "status %d is not a solution status but %d path(s) were added (op %d '%s')" % (st["code"], st["after"] - st["before"], k, o))
             if st["code"] == 6 and st["has"] and st["approx"]: pred(j, "EXACT_SOLUTION returned but the held top solution is approximate (op %d '%s')" % (k, o))
             if st["after"] < st["before"]: pred(j, "solve() removed solutions from the problem definition (op %d '%s')" % (k, o))
@@ -218,7 +220,7 @@ def main():
             else: pred(j, "admission rule rejects the report of op %d '%s': %s" % (k, o, v))
     c.cov.update({"evaluations": len(script) + stats["solves"], "traces_validated_against_impl": nscripts + stats["histories"], "distinct_nontrivial": stats["histories"],
                   "rule": "(a) %d random scripts over 1-3 problem definitions (0-4 starts, 0-3 goal states, invalid / out-of-bounds ones included) with USE / CLEAR / RESTART / NEXTSTART / NEXTGOAL / ADDSTART / MORE* operations, compared exactly; (b) %d histories over %d planners: interrupt ladder S0 S<k> (condition true at evaluation k) then resume, clear + same query, clear + new query, new query without clear, clearQuery, getPlannerData, plus random histories (thorough), on allocation-counting R2 / SE2 / R3 spaces with gap / thin-wall / box / circle maps; non-trivial = history that ran to completion" % (nscripts, len(hists), len(PLANNERS)),
-                  "disagreements": ndiff, "predicate_failures": npred, "predicate_failures_by_kind": dict(failures), "status_histogram": dict(stats), "max_further_evaluations_by_planner": dict(further_max), "skipped": skipped})
+                  "disagreements": ndiff, "predicate_failures": npred, "predicate_failures_by_kind": dict(failures), "failing_histories": failing[:40], "status_histogram": dict(stats), "max_further_evaluations_by_planner": dict(further_max), "skipped": skipped})
     c.cov["samples"] = hists[:3]
     c.cov["trusted_base"] += ["extraction (ExtrOcamlBasic) + extract/pis_driver.ml, ledger_driver.ml; harness/interrupt_driver.cpp, pis_driver.cpp, planning_common.h (call-counting termination conditions, allocation-counting state spaces)"]
     c.assumptions += ["partial: the bookkeeping model is proved and compared exactly; what each planner's solve() does under interruption is checked per history, not proved",
